@@ -66,4 +66,193 @@ def MutexEvent_Wait : String :=
 def CallCallback_Impl : String :=
   "Impl() { DownCast((*this)).Sub(1); return Noop() }"
 
+def Strand_Submit : String :=
+  "Submit(job) { var expected = _jobs.load(rlx); do { (job.next = ((expected == Mark()) ? nullptr : expected)) } while ((!_jobs.compare_exchange_weak(expected, (&job), acq_rel, rlx))); if ((expected == Mark())) { cast((*this)).IncRef(); operator->(_executor).Submit((*this)) } }"
+
+def Strand_Call : String :=
+  "Call() { var node = _jobs.exchange(nullptr, acq); var prev = nullptr; do { var next = node.next; (node.next = prev); (prev = node); (node = next) } while ((node != nullptr)); do { var next = prev.next; cast(prev).Call(); (prev = next) } while ((prev != nullptr)); if (((_jobs.load(rlx) == node) && _jobs.compare_exchange_strong(node, Mark(), rel, rlx))) { cast((*this)).DecRef() } else { operator->(_executor).Submit((*this)) } }"
+
+def Strand_Drop : String :=
+  "Drop() { var node = _jobs.exchange(Mark(), acq_rel); do { var next = node.next; cast(node).Drop(); (node = next) } while ((node != nullptr)); cast((*this)).DecRef() }"
+
+def MutexImpl_TryLockAwait : String :=
+  "TryLockAwait() { var expected = kNotLocked; return ((_sender.load(rlx) == expected) && _sender.compare_exchange_strong(expected, kLockedNoWaiters, acq, rlx)) }"
+
+def MutexImpl_AwaitLock : String :=
+  "AwaitLock(curr) { var expected = _sender.load(rlx); while (true) { if ((expected == kNotLocked)) { if (_sender.compare_exchange_weak(expected, kLockedNoWaiters, acq, rlx)) { return false } } else { (curr.next = cast(expected)); if (_sender.compare_exchange_weak(expected, cast((&curr)), rel, rlx)) { return true } } } }"
+
+def MutexImpl_TryUnlockAwait : String :=
+  "TryUnlockAwait() { if ((_receiver != nullptr)) { return false }; var expected = kLockedNoWaiters; return ((_sender.load(rlx) == expected) && _sender.compare_exchange_strong(expected, kNotLocked, rel, rlx)) }"
+
+def MutexImpl_BatchingPossible : String :=
+  "BatchingPossible() { return (Batching && (_receiver != nullptr)) }"
+
+def MutexImpl_UnlockHereAwait : String :=
+  "UnlockHereAwait() { var next = GetHead(); (_receiver = cast(next.next)); next._executor.Submit(next) }"
+
+def MutexImpl_AwaitUnlock : String :=
+  "AwaitUnlock(curr) { var next = (*_receiver); (_receiver = cast(next.next)); curr._executor.Swap(next._executor); operator->(curr._executor).Submit(curr); return cast(init(next.Curr())) }"
+
+def MutexImpl_AwaitUnlockOn : String :=
+  "AwaitUnlockOn(curr, executor) { var curr_executor = exchange(curr._executor, (&executor)); executor.Submit(curr); if (TryUnlockAwait()) { return cast(init(noop_coroutine().operator coroutine_handle())) }; var next = GetHead(); ifc (Batching) { if ((_receiver != nullptr)) { (_receiver = cast(next.next)); (next._executor = move(curr_executor)); return init(init(next.Curr())) } }; (_receiver = cast(next.next)); next._executor.Submit(next); return cast(init(noop_coroutine().operator coroutine_handle())) }"
+
+def MutexImpl_TryLock : String :=
+  "TryLock() { return TryLockAwait() }"
+
+def MutexImpl_UnlockHere : String :=
+  "UnlockHere() { if ((!TryUnlockAwait())) { UnlockHereAwait() } }"
+
+def MutexImpl_GetHead : String :=
+  "GetHead() { if ((_receiver != nullptr)) { return (*_receiver) }; var expected = _sender.exchange(kLockedNoWaiters, acq); ifc (FIFO) { var node = cast(expected); var prev = nullptr; do { var next = node.next; (node.next = prev); (prev = node); (node = next) } while ((node != nullptr)); return (*cast(prev)) } else { return (*cast(expected)) } }"
+
+def UnlockAwaiter_await_ready : String :=
+  "await_ready() { if (_mutex.TryUnlockAwait()) { return true }; if (_mutex.BatchingPossible()) { return false }; _mutex.UnlockHereAwait(); return true }"
+
+def UnlockAwaiter_await_suspend : String :=
+  "await_suspend(handle) { return _mutex.AwaitUnlock(handle.promise()) }"
+
+def UnlockOnAwaiter_await_ready : String :=
+  "await_ready() { return false }"
+
+def UnlockOnAwaiter_await_suspend : String :=
+  "await_suspend(handle) { return _mutex.AwaitUnlockOn(handle.promise(), _executor) }"
+
+def LockAwaiter_await_ready : String :=
+  "await_ready() { ifc (Shared) { return _mutex.TryLockSharedAwait() } else { return _mutex.TryLockAwait() } }"
+
+def LockAwaiter_await_suspend : String :=
+  "await_suspend(handle) { ifc (Shared) { return _mutex.AwaitLockShared(handle.promise()) } else { return _mutex.AwaitLock(handle.promise()) } }"
+
+def GuardAwaiter_await_resume : String :=
+  "await_resume() { return init(init(Cast(_mutex), adopt_lock)) }"
+
+def LockStickyAwaiter_await_ready : String :=
+  "await_ready() { (_executor = nullptr); return _mutex.TryLockAwait() }"
+
+def LockStickyAwaiter_await_suspend : String :=
+  "await_suspend(handle) { var promise = handle.promise(); (_executor = promise._executor.Get()); if (_mutex.AwaitLock(promise)) { return true }; (_executor = nullptr); return false }"
+
+def UnlockStickyAwaiter_await_ready : String :=
+  "await_ready() { if ((_executor != nullptr)) { return false }; _mutex.UnlockHere(); return true }"
+
+def UnlockStickyAwaiter_await_suspend : String :=
+  "await_suspend(handle) { return _mutex.AwaitUnlockOn(handle.promise(), (*_executor)) }"
+
+def GuardStickyAwaiter_await_ready : String :=
+  "await_ready() { var mutex_impl = Cast((*_guard.Mutex())); var awaiter = init(mutex_impl, _guard._executor); return awaiter.await_ready() }"
+
+def GuardStickyAwaiter_await_suspend : String :=
+  "await_suspend(handle) { var mutex_impl = Cast((*_guard.Mutex())); var awaiter = init(mutex_impl, _guard._executor); return awaiter.await_suspend(handle) }"
+
+def GuardStickyAwaiter_await_resume : String :=
+  "await_resume() { return move(_guard) }"
+
+def StickyGuard_Lock : String :=
+  "Lock() { var m = cast(LockState()); var base = Cast((*m)); return init(init(base, _executor)) }"
+
+def StickyGuard_Unlock : String :=
+  "Unlock() { var m = cast(UnlockState()); var base = Cast((*m)); return init(init(base, _executor)) }"
+
+def Guard_dtor : String :=
+  "~Guard<M, Shared>() { if ((*this)) { UnlockHere() } }"
+
+def Guard_Lock : String :=
+  "Lock() { var m = cast(LockState()); ifc (Shared) { return m.LockShared() } else { return m.Lock() } }"
+
+def Guard_TryLock : String :=
+  "TryLock() { var m = cast(LockState()); if (TryLockImpl((*m))) { return true }; UnlockState(); return false }"
+
+def Guard_Unlock : String :=
+  "Unlock() { var m = cast(UnlockState()); ifc (Shared) { return m.UnlockShared() } else { return m.Unlock() } }"
+
+def Guard_UnlockOn : String :=
+  "UnlockOn(e) { var m = cast(UnlockState()); ifc (Shared) { return m.UnlockOnShared(e) } else { return m.UnlockOn(e) } }"
+
+def Guard_UnlockHere : String :=
+  "UnlockHere() { var m = cast(UnlockState()); ifc (Shared) { m.UnlockHereShared() } else { m.UnlockHere() } }"
+
+def Guard_TryLockImpl : String :=
+  "TryLockImpl(m) { ifc (Shared) { return m.TryLockShared() } else { return m.TryLock() } }"
+
+def Mutex_TryGuard : String :=
+  "TryGuard() { return init(init((*this), try_to_lock)) }"
+
+def Mutex_Guard : String :=
+  "Guard() { return init(init((*this))) }"
+
+def Mutex_GuardSticky : String :=
+  "GuardSticky() { return init(init((*this))) }"
+
+def Mutex_Lock : String :=
+  "Lock() { return init(init((*this))) }"
+
+def Mutex_Unlock : String :=
+  "Unlock() { return init(init((*this))) }"
+
+def Mutex_UnlockOn : String :=
+  "UnlockOn(e) { return init(init((*this), e)) }"
+
+def SharedMutexImpl_TryLockSharedAwait : String :=
+  "TryLockSharedAwait() { return ((_state.fetch_add(kReader, acq_rel) / kWriter) == 0) }"
+
+def SharedMutexImpl_TryLockAwait : String :=
+  "TryLockAwait() { var s = 0; return ((_state.load(rlx) == s) && _state.compare_exchange_strong(s, (s + kWriter), acq_rel, rlx)) }"
+
+def SharedMutexImpl_AwaitLockShared : String :=
+  "AwaitLockShared(curr) { var lock = init(_lock); if ((_readers_pass != 0)) { (--_readers_pass); return false }; _readers.PushBack(curr); (++_readers_size); return true }"
+
+def SharedMutexImpl_AwaitLock : String :=
+  "AwaitLock(curr) { (curr.next = nullptr); var lock = init(_lock); var s = _state.fetch_add(kWriter, acq_rel); if (((s / kWriter) == 0)) { var r = (s % kWriter); (_writers_first = (&curr)); return ((r != 0) && (_readers_wait.fetch_add(r, acq_rel) != (-r))) }; (_writers_tail.next = (&curr)); (_writers_tail = (&curr)); ifc (FIFO) { (_writers_prio += cast(_readers.Empty())) }; return true }"
+
+def SharedMutexImpl_TryLockShared : String :=
+  "TryLockShared() { var s = _state.load(rlx); do { if (((s / kWriter) != 0)) { return false } } while ((!_state.compare_exchange_weak(s, (s + kReader), acq_rel, rlx))); return true }"
+
+def SharedMutexImpl_TryLock : String :=
+  "TryLock() { return TryLockAwait() }"
+
+def SharedMutexImpl_UnlockHereShared : String :=
+  "UnlockHereShared() { if (var s = _state.fetch_sub(kReader, acq_rel); (s >= kWriter)) { if ((_readers_wait.fetch_sub(1, acq_rel) == 1)) { Run(_writers_first) } } }"
+
+def SharedMutexImpl_UnlockHere : String :=
+  "UnlockHere() { if (var s = kWriter; (!_state.compare_exchange_strong(s, 0, acq_rel, rlx))) { SlowUnlock() } }"
+
+def SharedMutexImpl_Run : String :=
+  "Run(node) { var core = cast((*node)); operator->(core._executor).Submit(core) }"
+
+def SharedMutexImpl_RunWriter : String :=
+  "RunWriter() { ifc (FIFO) { (--_writers_prio) }; var node = _writers_head.next; (_writers_head.next = node.next); if ((_writers_head.next == nullptr)) { (_writers_tail = (&_writers_head)) }; _lock.unlock(); Run(node) }"
+
+def SharedMutexImpl_PassReaders : String :=
+  "PassReaders(s) { var r = (s % kWriter); (_readers_pass += (r - _readers_size)) }"
+
+def SharedMutexImpl_RunReaders : String :=
+  "RunReaders(s) { if (var w = (s / kWriter); (w != 1)) { _readers_wait.store(_readers_size, rlx); var node = _writers_head.next; (_writers_head.next = node.next); if ((_writers_head.next == nullptr)) { (_writers_tail = (&_writers_head)) }; (_writers_first = node); ifc (FIFO) { (_writers_prio = (w - 2)) } } else { PassReaders(s) }; var readers = move(_readers); (_readers_size = 0); _lock.unlock(); do { Run((&readers.PopFront())) } while ((!readers.Empty())) }"
+
+def SharedMutexImpl_SlowUnlock : String :=
+  "SlowUnlock() { _lock.lock(); var s = _state.fetch_sub(kWriter, acq_rel); ifc (FIFO) { if ((_writers_prio != 0)) { return RunWriter() } }; if ((!_readers.Empty())) { return RunReaders(s) }; ifc ((!FIFO)) { if (((s / kWriter) != 1)) { return RunWriter() } }; PassReaders(s); _lock.unlock() }"
+
+def Spinlock_lock : String :=
+  "lock() { while (operator!=(_state.exchange(1, acq), 0)) { do {  } while (operator!=(_state.load(rlx), 0)) } }"
+
+def Spinlock_unlock : String :=
+  "unlock() { _state.store(0, rel) }"
+
+def SharedMutex_Lock : String :=
+  "Lock() { return init(init((*this))) }"
+
+def SharedMutex_LockShared : String :=
+  "LockShared() { return init(init((*this))) }"
+
+def SharedMutex_TryGuard : String :=
+  "TryGuard() { return init(init((*this), try_to_lock)) }"
+
+def SharedMutex_TryGuardShared : String :=
+  "TryGuardShared() { return init(init((*this), try_to_lock)) }"
+
+def SharedMutex_Guard : String :=
+  "Guard() { return init(init((*this))) }"
+
+def SharedMutex_GuardShared : String :=
+  "GuardShared() { return init(init((*this))) }"
+
 end Yaclib.Skeletons
